@@ -325,6 +325,7 @@ func runServerRound(r *ev.Run, g *grpcEnv, sc serverCase) {
 
 	// --- judge: what each handler saw vs what that client sent
 	total, bad, overlapped := 0, 0, 0
+	tainted := map[int]bool{}
 	var first *serverWitness
 	firstSig, firstWhat := "", ""
 	kv.mu.Lock()
@@ -345,6 +346,7 @@ func runServerRound(r *ev.Run, g *grpcEnv, sc serverCase) {
 			if q.err != nil {
 				if st, _ := status.FromError(q.err); st != nil && (st.Code() == codes.DeadlineExceeded || st.Code() == codes.Canceled) {
 					r.Inconclusive("server request " + q.id + ": " + q.err.Error())
+					tainted[c] = true // unknown whether it was applied: this client's table is not judged
 					continue
 				}
 			}
@@ -416,6 +418,10 @@ func runServerRound(r *ev.Run, g *grpcEnv, sc serverCase) {
 	expKeys := 0
 	for c := range res {
 		for k, v := range res[c].exp {
+			if tainted[c] {
+				delete(kv.store, k)
+				continue
+			}
 			expKeys++
 			got, ok := kv.store[k]
 			switch {
